@@ -98,6 +98,24 @@ def socket_scripts(rng, thorough):
                 out.append({"scen": scen, "sock": t, "ops": ops, "tag": stage})
     return out
 
+def proxy_scripts():
+    """a proxy(ROUTER, DEALER) relays what workers and clients send: message shapes a well-behaved peer would never send must not
+    crash the task that runs it (that the proxy may stop with an error is a different matter, see DESIGN.md)"""
+    out, scen = [], 800000
+    hx = S.hx
+    shapes = [[b"x"], [b""], [b"cli1"], [b"nobody", b"", b"x"], [b"cli1", b"x"], [b"", b""], [b"x" * 300], [b"cli1", b"", b""], [b"c" * 255], [b"c" * 256, b"", b"x"]]
+    for side, c in (("back", 3), ("front", 1)):
+        for m in shapes:
+            scen += 1
+            ops = [{"op": "attach", "c": 1, "side": "front", "ptype": "REQ", "ident": hx("cli1")},
+                   {"op": "attach", "c": 2, "side": "front", "ptype": "DEALER", "ident": hx("cli2")},
+                   {"op": "attach", "c": 3, "side": "back", "ptype": "REP"},
+                   {"op": "attach", "c": 4, "side": "back", "ptype": "DEALER"},
+                   {"op": "psend", "c": c, "m": [hx(f) for f in m]}, {"op": "drive"}, {"op": "drive"},
+                   {"op": "psend", "c": 2, "m": [hx(""), hx("still-served")]}, {"op": "drive"}, {"op": "quiescent", "final": True}]
+            out.append({"scen": scen, "sock": "PROXY", "capture": "none", "ops": ops, "tag": "proxy-hostile/%s" % side, "nojitter": True})
+    return out
+
 def run_zv_c03(chk, vectors, label):
     """runs the bare-decoder driver in a child process; a dying child is a violation whose replay is the vector it had started"""
     inp = os.path.join(chk.wd, label + ".in"); out = os.path.join(chk.wd, label + ".out"); prog = os.path.join(chk.wd, label + ".progress")
@@ -201,3 +219,8 @@ def run(chk, replay=None):
                 code = "C03/other-connection-disturbed"      # the healthy connection stopped delivering
             relabelled.append((scen, code, line))
         dlvlib.report(chk, relabelled, batch, ("C03/",), "socket")
+    # peers of a proxy
+    ps = proxy_scripts()
+    for s_ in ps: chk.case(("proxy", s_["tag"], s_["scen"]))
+    v = dlvlib.run_scripts(chk, ps, "c03-proxy", monitor="TraceProxy")
+    dlvlib.report(chk, v, ps, ("C03/",), "proxy", monitor="TraceProxy")
